@@ -4,6 +4,7 @@
 pub mod bfs;
 pub mod comps;
 pub mod hist;
+pub mod join;
 pub mod kinds;
 pub mod store;
 pub mod report;
